@@ -372,7 +372,10 @@ def rule_ax1(ctx, rels, scope=None):
                   "flattened array (np.flip, np.roll, np.cumsum, np.squeeze, "
                   "np.count_nonzero, np.sum, np.mean, np.prod, "
                   "np.linalg.norm, np.max / np.min) names its "
-                  "axis; np.sort / np.argsort default to the last axis and "
+                  "axis; so does np.concatenate / np.append of leading-axis "
+                  "slices of a data array (`x[1:]`, `x[:1]`: the cyclic-"
+                  "shift idiom shifts the first OUTER axis of a composite); "
+                  "np.sort / np.argsort default to the last axis and "
                   "are not concerned")
     n = 0
     for rel in rels:
@@ -388,7 +391,27 @@ def rule_ax1(ctx, rels, scope=None):
                 nm = dotted(c.func)
                 kws = {k.arg for k in c.keywords}
                 hit = False
-                if nm in AXIS_FUNCS:
+                if nm in ("np.concatenate", "np.append") and c.args:
+                    # joining pieces of DATA arrays (slices / parts of an
+                    # array whose leading axes are the composite's): the
+                    # default axis 0 is the first outer axis, not the unit's.
+                    # Explicit lists / 1-d builders (np.ones(k)) are 1-d by
+                    # construction and not concerned
+                    seq = c.args[0]
+                    elts = list(seq.elts) if isinstance(
+                        seq, (ast.List, ast.Tuple)) else []
+                    if nm == "np.append":
+                        elts = list(c.args[:2])
+                    data_like = [e for e in elts
+                                 if isinstance(e, ast.Subscript)
+                                 and isinstance(e.slice, ast.Slice)]
+                    if not data_like:
+                        continue
+                    n += 1
+                    if "axis" not in kws and len(c.args) <= (
+                            2 if nm == "np.append" else 1):
+                        hit = True
+                elif nm in AXIS_FUNCS:
                     n += 1
                     if "axis" not in kws and len(c.args) <= AXIS_FUNCS[nm]:
                         hit = True
@@ -1374,6 +1397,13 @@ HOM_VARIANT_BY_DESIGN = {
     "TangentVector._compute_aux_data":
         "returns homogeneous rows (base point, tangent vector); only the "
         "scale-dependent constructs met on the way are judged",
+    "CP1Disk._compute_proj_data[fs]":
+        "returns four homogeneous rows (three boundary points, the centre "
+        "as stored), each defined up to its own scalar; only the "
+        "scale-dependent constructs met on the way are judged",
+    "CP1Disk._compute_proj_data[affine]":
+        "returns four homogeneous rows (three boundary points, the centre "
+        "as stored), each defined up to its own scalar",
 }
 # functions that may add up rows with independent scales: only the span of
 # the rows is used afterwards
